@@ -22,8 +22,75 @@ CFG_REL = "SPECIFICATION Spec\nCONSTANT Strict = FALSE\nPOSTCONDITION Accepted\n
 # relations + "the constructive model mirrors the implementation" (a rejection under this one alone is a SPEC-DRIFT note)
 CFG_STRICT = "SPECIFICATION Spec\nCONSTANT Strict = TRUE\nPOSTCONDITION Accepted\nCHECK_DEADLOCK FALSE\n"
 
+# synthetic topologies per number of PUs for the configurations that only restrict by cpuset with flags 0 (the PUs that are
+# left do not depend on the NUMA layout there, so the description rotates over the behaviours)
 SYNTH = {2: ["pu:2"], 3: ["pu:3"], 4: ["pu:4", "core:2 pu:2", "pack:2 core:2 pu:1"], 5: ["pu:5"],
          6: ["pu:6", "pack:2 core:3 pu:1", "core:3 pu:2", "[numa] pack:2 pu:3"], 7: ["pu:7"], 8: ["pack:2 core:2 pu:2", "pu:8", "numa:2 core:2 pu:2"]}
+
+# topology families for the configurations whose restricts depend on the NUMA layout (BYNODESET, REMOVE_MEMLESS, REMOVE_CPULESS):
+# one NUMA node for the machine, one per package / group, memory at two and three levels, interleaved PU numbering.
+# The model gets the layout (NUMA node -> local PUs) as the constant Fams; NUMA node indexes stay below the number of PUs so
+# that node n is atom n of a nodeset.
+NUMA_SYNTH = {
+    3: ["pu:3", "numa:3 pu:1", "[numa] pack:1 [numa] pu:3"],
+    4: ["pu:4", "pack:2 [numa] pu:2", "[numa] pack:2 [numa] pu:2", "pack:2 [numa] pu:2(indexes=0,2,1,3)", "numa:4 pu:1",
+        "[numa] pack:1 [numa] core:2 [numa] pu:2"],
+    5: ["pu:5", "numa:5 pu:1", "[numa] pack:1 [numa] pu:5"],
+    6: ["numa:2 pu:3", "numa:3 pu:2", "[numa] pack:2 [numa] pu:3", "[numa] pack:3 [numa] core:2 pu:1", "pack:2 [numa] core:3 pu:1",
+        "core:3 [numa] pu:2(indexes=0,3,1,4,2,5)"],
+    7: ["pu:7", "numa:7 pu:1", "[numa] pack:1 [numa] pu:7"]}
+
+R_CPULESS, R_MISC, R_IO, R_BYNODE, R_MEMLESS = 1, 2, 4, 8, 16
+# the legal flag words that change which PUs / nodes disappear
+RES_FLAGS = [0, R_CPULESS, R_BYNODE, R_BYNODE | R_MEMLESS]
+
+
+def synth_nodes(desc):
+    """NUMA layout of a synthetic description: {node OS index: [PU OS indexes]}.  hwloc numbers the nodes in the order the
+    objects they are attached to are completed (children first); without any node there is one for the machine.
+    Steering only: the trace specification reads the layout from the recorded state."""
+    levels, rootmem = [], False          # levels: [count, memory attached, PU indexes or None]
+    for tok in desc.split():
+        if tok == "[numa]":
+            if levels:
+                levels[-1][1] = True
+            else:
+                rootmem = True
+            continue
+        typ, _, rest = tok.partition(":")
+        cnt, _, attr = rest.partition("(")
+        idx = [int(x) for x in attr.rstrip(")").split("=")[1].split(",")] if attr else None
+        levels.append([int(cnt), typ.lower().startswith("numa"), idx])
+    nodes, npu = {}, [0]
+    puidx = levels[-1][2]
+
+    def build(d):
+        if d == len(levels):
+            k = npu[0]
+            npu[0] += 1
+            return [puidx[k] if puidx else k]
+        pus = []
+        for _ in range(levels[d][0]):
+            sub = build(d + 1)
+            if levels[d][1]:
+                nodes[len(nodes)] = sorted(sub)
+            pus += sub
+        return pus
+    allp = build(0)
+    if rootmem or not nodes:
+        nodes[len(nodes)] = sorted(allp)
+    return nodes
+
+
+def fams_of(ntopo, numa):
+    if not numa:
+        return [{"synth": None, "nodes": {0: list(range(ntopo))}}]
+    return [{"synth": d, "nodes": synth_nodes(d)} for d in NUMA_SYNTH[ntopo]]
+
+
+def tla_fams(fams):
+    return "<< " + ", ".join("[nodes |-> %s, cpus |-> %s]" % (tla_set(f["nodes"]), " @@ ".join("(%d :> %s)" % (n, tla_set(p)) for n, p in sorted(f["nodes"].items())))
+                             for f in fams) + " >>"
 
 
 def tla_str(s):
@@ -39,12 +106,14 @@ def tla_set(xs):
 
 
 def gen_module(c):
-    return ("---- MODULE MC_CpuKinds_gen ----\nEXTENDS MC_CpuKinds\nGRegMasks == %s\nGResMasks == %s\nGForced == %s\nGInfoArrs == %s\n====\n"
-            % (tla_set(c["reg"]), tla_set(c["res"]), tla_set(c["forced"]), tla_infoarrs(c["infos"])))
+    return ("---- MODULE MC_CpuKinds_gen ----\nEXTENDS MC_CpuKinds\nGRegMasks == %s\nGResMasks == %s\nGNodeMasks == %s\nGResFlags == %s\n"
+            "GFams == %s\nGForced == %s\nGInfoArrs == %s\n====\n"
+            % (tla_set(c["reg"]), tla_set(c["res"]), tla_set(c.get("nres", [1])), tla_set(c.get("flags", [0])), tla_fams(c["fams"]),
+               tla_set(c["forced"]), tla_infoarrs(c["infos"])))
 
 
 def cfg(c, nstripes=1, stripe=0, simlen=0, bfs=True):
-    s = ("SPECIFICATION Spec\nCONSTANTS\n  NA = %d\n  NTopo = %d\n  RegMasks <- GRegMasks\n  ResMasks <- GResMasks\n  Forced <- GForced\n"
+    s = ("SPECIFICATION Spec\nCONSTANTS\n  NA = %d\n  NTopo = %d\n  RegMasks <- GRegMasks\n  ResMasks <- GResMasks\n  NodeMasks <- GNodeMasks\n  ResFlags <- GResFlags\n  Fams <- GFams\n  Forced <- GForced\n"
          "  InfoArrs <- GInfoArrs\n  MaxReg = %d\n  MaxRes = %d\n  MaxAux = %d\n  MaxErr = %d\n  NStripes = %d\n  Stripe = %d\n  SimLen = %d\n"
          "VIEW View\nCHECK_DEADLOCK FALSE\n"
          % (c["na"], c["ntopo"], c["maxreg"], c["maxres"], c["maxaux"], c["maxerr"], nstripes, stripe, simlen))
@@ -93,7 +162,7 @@ def op_line(o, c):
         stxt = "-1" if a < 0 else atoms_txt(atoms_of(a, c["na"]))
         return "register %s %d %d %s" % (stxt, b, fl, itxt)
     if name == "restrict":
-        return "restrict %s 0" % atoms_txt(atoms_of(a, c["na"]))
+        return "restrict %s %d" % (atoms_txt(atoms_of(a, c["na"])), fl)
     if name == "dup":
         return "dup %d" % a
     if name == "xml":
@@ -107,10 +176,19 @@ def reset_line(kind, arg, lo, hi):
     return "reset %s %s %d %s" % (kind, esc(arg) if kind != "synth" else arg.replace(" ", "_"), len(lo), " ".join("%d %d" % p for p in zip(lo, hi)))
 
 
-def beh_text(hist, c, synth, amap):
-    lines = [reset_line("synth", synth, *amap)]
-    lines += [op_line(o, c) for o in hist]
+def beh_text(hist, c, rot, amap):
+    """hist = [family index, op, op, ...]; a family without description stands for the rotating plain ones"""
+    f = c["fams"][hist[0] - 1]
+    lines = [reset_line("synth", f["synth"] or rot, *amap)]
+    lines += [op_line(o, c) for o in hist[1:]]
     return "\n".join(lines) + "\n"
+
+
+def node_masks(fams, na):
+    """nodesets of the exhaustive configurations: every non-empty subset of the node indexes, and the infinite tail (atom na-1)
+    alone and with everything"""
+    nn = max(len(f["nodes"]) for f in fams)
+    return sorted(set(list(range(1, 1 << nn)) + [1 << (na - 1), (1 << na) - 1]))
 
 
 def all_masks(n):
@@ -120,23 +198,39 @@ def all_masks(n):
 # ---- bounded configurations ----
 def bfs_configs(thorough):
     cs = []
-    # P: every non-empty subset of 4 PUs, <= 3 registrations, <= 1 restrict, two info arrays + NULL, no forced efficiency:
-    #    partition, info accumulation, lookup
-    cs.append(dict(tag="P", na=5, ntopo=4, reg=all_masks(4), res=all_masks(4), forced=[-1], infos=[[F1], [CA]],
-                   maxreg=3, maxres=1, maxaux=0, maxerr=0, nstripes=12 if thorough else 128))
+    # P: every non-empty subset of 4 PUs, <= 3 registrations, <= 1 restrict, two info arrays (quick: one) + NULL, no forced
+    #    efficiency: partition, info accumulation, lookup
+    cs.append(dict(tag="P", na=5, ntopo=4, reg=all_masks(4), res=all_masks(4), forced=[-1], infos=[[F1], [CA]] if thorough else [[F1]],
+                   maxreg=3, maxres=1, maxaux=0, maxerr=0, nstripes=12 if thorough else 64))
     # R: ranking: 3 PUs, forced efficiencies -1..2, frequency infos
     cs.append(dict(tag="R", na=4, ntopo=3, reg=all_masks(3), res=all_masks(3), forced=[-1, 0, 1, 2] if thorough else [-1, 0, 1],
-                   infos=[[F1], [F2]], maxreg=3, maxres=1, maxaux=0, maxerr=0, nstripes=24 if thorough else 64))
+                   infos=[[F1], [F2]], maxreg=3, maxres=1, maxaux=0, maxerr=0, nstripes=24 if thorough else 128))
     # O: registrations outside the topology (atom 3 is the infinite tail), rejected calls, dup / XML / refresh steps
-    cs.append(dict(tag="O", na=4, ntopo=3, reg=all_masks(4), res=all_masks(4), forced=[-1, 1], infos=[[F1], [F1, CA, F1]],
-                   maxreg=2, maxres=1, maxaux=1, maxerr=1, nstripes=12 if thorough else 64))
+    cs.append(dict(tag="O", na=4, ntopo=3, reg=all_masks(4), res=all_masks(4), forced=[-1, 1], infos=[[F1], [F1, CA, F1]] if thorough else [[F1, CA, F1]],
+                   maxreg=2, maxres=1, maxaux=1, maxerr=1, nstripes=12 if thorough else 128))
     # D: deeper histories on 3 PUs: <= 4 registrations, <= 2 restricts
     if thorough:
         cs.append(dict(tag="D", na=4, ntopo=3, reg=all_masks(3), res=all_masks(3), forced=[-1, 0, 1], infos=[[F1], [CA]],
                        maxreg=4, maxres=2, maxaux=0, maxerr=0, nstripes=192))
     else:
         cs.append(dict(tag="D", na=4, ntopo=3, reg=all_masks(3), res=all_masks(3), forced=[-1, 1], infos=[[F1]],
-                       maxreg=4, maxres=2, maxaux=0, maxerr=0, nstripes=64))
+                       maxreg=4, maxres=2, maxaux=0, maxerr=0, nstripes=96))
+    for c in cs:
+        c["fams"] = fams_of(c["ntopo"], False)
+    # N, M: which PUs a restrict removes: every legal flag word that changes it (by cpuset with / without REMOVE_CPULESS, by
+    #    nodeset with / without REMOVE_MEMLESS) over the NUMA families of 4 PUs (one node, one per package, memory at two and
+    #    three levels, interleaved PUs, one node per PU), every subset of the PUs / of the nodes.  Two focused configurations:
+    #    N = every layout of kinds that <= 2 registrations build, then one restrict (or a restrict in between);
+    #    M = restrict sequences (a node dropped first, its PUs later; CPU-less nodes dropped, then by nodeset ...): <= 1
+    #        registration, <= 2 restricts.  Thorough adds NM = <= 2 registrations and <= 2 restricts.
+    fams = fams_of(4, True)
+    base = dict(na=5, ntopo=4, reg=all_masks(4), res=all_masks(4), nres=node_masks(fams, 5), flags=RES_FLAGS, fams=fams, maxaux=0, maxerr=0)
+    cs.append(dict(base, tag="N", forced=[-1, 0, 1] if thorough else [0, 1], infos=[[F1]] if thorough else [], maxreg=2, maxres=1,
+                   nstripes=96 if thorough else 48))
+    cs.append(dict(base, tag="M", forced=[-1, 0, 1] if thorough else [0, 1], infos=[[F1]], maxreg=1, maxres=2,
+                   nstripes=64 if thorough else 128))
+    if thorough:
+        cs.append(dict(base, tag="NM", forced=[0, 1], infos=[], maxreg=2, maxres=2, nstripes=512))
     return cs
 
 
@@ -144,13 +238,15 @@ def sim_configs(thorough, rng):
     cs = []
     pool = [[F1], [F2], [F3], [CA], [CC], [B1], [B2], [F1, CA], [F2, CC], [B1, F2, CC], [CX], [XS], [XN, XS], [F1, F1], [F3, B2, CA, XS]]
     n = 12 if thorough else 4
+    # flag words of the walks: the four of RES_FLAGS, also with ADAPT_MISC / ADAPT_IO (which change nothing here)
+    flags = RES_FLAGS + [R_MISC, R_CPULESS | R_IO, R_BYNODE | R_MISC | R_IO, R_BYNODE | R_MEMLESS | R_MISC, R_BYNODE | R_MEMLESS]
     for k in range(n):
         ntopo = rng.choice([4, 5, 6, 6, 7])
         na = min(8, ntopo + rng.choice([1, 1, 2]))
         infos = rng.sample(pool, 7)
         forced = sorted(set([-1, 0, 1, 2, rng.choice([3, 5, 1000]), rng.choice([-7, 2147483647, 100])]))
-        cs.append(dict(tag="S%d" % k, na=na, ntopo=ntopo, reg=all_masks(na), res=all_masks(na), forced=forced, infos=infos,
-                       maxreg=9, maxres=9, maxaux=9, maxerr=9))
+        cs.append(dict(tag="S%d" % k, na=na, ntopo=ntopo, reg=all_masks(na), res=all_masks(na), nres=all_masks(na), flags=flags,
+                       fams=fams_of(ntopo, True), forced=forced, infos=infos, maxreg=9, maxres=9, maxaux=9, maxerr=9))
     return cs
 
 
@@ -228,7 +324,8 @@ def run(ctx, replay=None):
     # rejected calls)
     bcs = bfs_configs(thorough)
     scs = sim_configs(thorough, rng)
-    share = {"P": 0.15, "R": 0.2, "O": 0.15, "D": 0.5} if thorough else {"P": 0.35, "R": 0.25, "O": 0.25, "D": 0.15}
+    share = ({"P": 0.15, "R": 0.15, "O": 0.1, "D": 0.3, "N": 0.1, "M": 0.1, "NM": 0.3} if thorough
+             else {"P": 0.1, "R": 0.3, "O": 0.2, "D": 0.15, "N": 0.1, "M": 0.15})
 
     def bfs_job(c):
         ns = c["nstripes"]
@@ -282,6 +379,13 @@ def run(ctx, replay=None):
         "register 6 5 6 7 8 9 10 -1 0 1 Features this,%20that%20and%20those",
         "register 5 0 1 2 3 4 1000 0 -1", "register 1 5 100 0 -1", "register 3 6 7 8 10 0 -1", "register 2 9 10 1 0 -1",
         "restrict 6 3 4 7 8 9 10 0", "xml 0", "xml 1", "dup 1", "refresh"]) + "\n")
+    # the same registrations on four packages with their own NUMA node, restricted by nodeset
+    behs.append("\n".join([
+        reset_line("synth", "pack:4 [numa] pu:3", lo, hi),
+        "register 6 0 1 2 3 4 5 1000 0 1 CoreType BigCore", "register 3 6 7 8 10 0 1 CoreType SmallCore",
+        "register 6 5 6 7 8 9 10 -1 0 1 Features this,%20that%20and%20those", "register 2 9 10 1 0 -1",
+        "restrict 3 0 1 3 %d" % R_BYNODE, "xml 0", "restrict 2 1 3 %d" % (R_BYNODE | R_MEMLESS), "xml 1", "dup 0",
+        "restrict 3 9 10 11 %d" % R_CPULESS, "refresh"]) + "\n")
 
     # (3) bundled inputs that carry cpukinds: shape after load, then the loaded kinds count as registrations
     nload0 = len(behs)
@@ -300,8 +404,12 @@ def run(ctx, replay=None):
                     itxt = "-1" if infos is None else "%d%s" % (len(infos), "".join(" %s %s" % (esc(nm), esc(v)) for nm, v in infos))
                     lines.append("register %s %d 0 %s" % (atoms_txt(atoms), rng.choice([-1, 0, 1, 2, 3]), itxt))
                 elif x < 0.65:
-                    atoms = sorted(set(rng.randrange(0, 24) for _ in range(rng.randrange(4, 20))))
-                    lines.append("restrict %s 0" % atoms_txt(atoms))
+                    fl = rng.choice([0, 0, 0, R_CPULESS, R_BYNODE, R_BYNODE | R_MEMLESS, R_BYNODE | R_MEMLESS, R_BYNODE | R_CPULESS])
+                    if fl & R_BYNODE:
+                        atoms = sorted(set(rng.randrange(0, 4) for _ in range(rng.randrange(1, 4))))
+                    else:
+                        atoms = sorted(set(rng.randrange(0, 24) for _ in range(rng.randrange(4, 20))))
+                    lines.append("restrict %s %d" % (atoms_txt(atoms), fl))
                 elif x < 0.8:
                     lines.append("dup %d" % rng.randrange(2))
                 elif x < 0.95:
@@ -315,7 +423,7 @@ def run(ctx, replay=None):
     bf = ctx.path("behaviours.txt")
     open(bf, "w").write("".join(behs))
     tf = ctx.path("trace.ndjson")
-    ctx.record(exe, bf, tf)
+    ctx.record(exe, bf, tf, parallel=max(1, vlib.NCPU // 2))
     # the walks once more with the XML backend that does not use libxml2 (chosen per process through the environment)
     behs2 = ["#env HWLOC_LIBXML=0\n" + b for b in behs[nsim0:] if "\nxml " in b]
     bf2 = ctx.path("behaviours-nolibxml.txt")
@@ -353,13 +461,20 @@ def run(ctx, replay=None):
         ctx.notes.append("SPEC-DRIFT on %d behaviours (constructive model differs from the implementation, relations hold); first: %s"
                          % (len(drift), drift[0][0][:600]))
     return ctx.finish(
-        rule="behaviours = one per striped state-graph edge of four exhaustively model-checked bounded configurations of MC_CpuKinds "
+        rule="behaviours = one per striped state-graph edge of five exhaustively model-checked bounded configurations of MC_CpuKinds "
              "(P: all subsets of 4 PUs, <=3 registrations, <=1 restrict; R: 3 PUs with forced efficiencies -1..2 (quick: -1..1) and frequency infos; "
-             "O: registrations outside the topology, rejected calls, dup/XML/refresh steps; D: 3 PUs, <=4 registrations, <=2 restricts), TLC-simulated walks of depth 8 over 5-8 atoms with "
-             "dup, XML export+import, refresh and rejected calls, and the bundled inputs that carry cpukinds followed by random steps; "
+             "O: registrations outside the topology, rejected calls (register and restrict flag words), dup/XML/refresh steps; D: 3 PUs, <=4 registrations, <=2 restricts; "
+             "N: 4 PUs over six NUMA layouts (memory at one to three levels, interleaved PUs), <=2 registrations, <=2 restricts by cpuset "
+             "with/without REMOVE_CPULESS and by nodeset with/without REMOVE_MEMLESS over every subset of the PUs / nodes), "
+             "TLC-simulated walks of depth 8 over 5-8 atoms on the NUMA layouts of 4-7 PUs with all restrict flag words, "
+             "dup, XML export+import, refresh and rejected calls, and the bundled inputs that carry cpukinds followed by random steps "
+             "(restricts by cpuset and by nodeset); "
              "every behaviour was replayed on the rebuilt library (ASan+UBSan) and every recorded event validated by TLC against the "
              "relations of CpuKinds.tla; a behaviour is non-trivial when it contains at least one accepted registration",
-        assumptions=["restrict is only exercised by cpuset with flags 0",
+        assumptions=["restrict: the PUs that are left are derived in TLA+ (RestrictOutcome) from the set, the flag word (by cpuset with / without "
+                     "REMOVE_CPULESS, by nodeset with / without REMOVE_MEMLESS; ADAPT_MISC / ADAPT_IO change nothing) and the NUMA nodes "
+                     "reported before the call; all PUs and nodes of the exercised topologies are allowed; the synthetic NUMA layouts are "
+                     "symmetric (PUs without local node only arise through an earlier restrict by nodeset, also across an XML round trip)",
                      "forced efficiencies: only 'the latest known forced efficiency of every PU is uniform per kind and distinct across kinds' "
                      "obliges a ranking; the relation is silent when a later -1 overrides a known value",
                      "ranking heuristics from info strings are modelled (steering, model-level invariants) but the implementation is only "
